@@ -182,6 +182,7 @@ int do_op (string line) {
   case "mset": v[a][v[b]] = v[c]; break;
   case "mdel": map_delete (v[a], v[b]); break;
   case "newobj": obs[a] = new ("/c06/uobj"); break;
+  case "newobjr": obs[a] = new ("/c06/rc" + ({ "11", "12", "21", "31" })[b]); break;
   case "setvar": obs[a]->set (b, v[c]); break;
   case "getvar": v[a] = obs[b]->get (c); break;
   case "dest": destruct (obs[a]); break;
